@@ -20,7 +20,8 @@ RULE = (
     "Non-trivial: >= 2 blocks, >= 1 shared edge traversed in opposite senses, family edge lengths differing by > 5 %."
 )
 ASSUMPTIONS = [
-    "edge lengths are taken from the vertices of the parsed file (straight edges)",
+    "edge lengths are taken from the parsed file: vertex distance for straight edges, R * theta of the circle through "
+    "the three points of an `arc` entry for curved ones (arc points 5-30 % of the chord off the edge)",
     "size sequences compare with relative tolerance 1e-6; preserved sizes with 1e-6 relative",
     "a chop whose size/ratio combination cannot be realised on some edge may be rejected with a ValueError (counted)",
 ]
@@ -40,6 +41,7 @@ def spec_of(entry):
 def edge_sequences(bmd):
     """{frozenset(vertex pair): [(block, axis, (a, b), sizes list in a->b order)]}"""
     pos = [np.array(v.pos) for v in bmd.vertices]
+    arcs = arc_lengths(bmd)
     out = {}
     for bi, h in enumerate(bmd.blocks):
         grads = hex_edge_gradings(h)
@@ -50,9 +52,22 @@ def edge_sequences(bmd):
             ax = k // 4
             g = grads[k]
             spec = g if isinstance(g, list) else [[1.0, h.counts[ax], g]]
-            length = float(np.linalg.norm(pos[b] - pos[a]))
+            length = arcs.get(frozenset((a, b)), float(np.linalg.norm(pos[b] - pos[a])))
             sizes = multi_sizes(length, spec)
             out.setdefault(frozenset((a, b)), []).append((bi, ax, (a, b), sizes, spec))
+    return out
+
+
+def arc_lengths(bmd):
+    """{vertex pair: analytic length R * theta} for the `arc a b (p)` entries of the file (circle through a, p, b)"""
+    from vf.refmodel import arc_angle_through
+
+    pos = [np.array(v.pos) for v in bmd.vertices]
+    out = {}
+    for e in bmd.edges:
+        if e.kind == "arc" and not isinstance(e.payload[0], tuple):
+            theta, _centre, radius, _n = arc_angle_through(pos[e.a], np.array(e.payload), pos[e.b])
+            out[frozenset((e.a, e.b))] = radius * theta
     return out
 
 
@@ -114,6 +129,11 @@ def check_written(case, built, text, ctx: Ctx, check_preserve: bool):
     fams, _ = lt.lattice_families(case)
     fam_of = {m: fi for fi, fam in enumerate(fams) for m in fam}
     pos = [np.array(v.pos) for v in bmd.vertices]
+    arcs = arc_lengths(bmd)
+    if len(arcs) != len(built.arcs):
+        raise Violation("arc-entries", f"{len(built.arcs)} arc edges declared, {len(arcs)} written", **facts)
+    if arcs:
+        ctx.label("curved-edges")
     spread = 0.0
     if check_preserve:
         for ap in built.applied:
@@ -141,7 +161,7 @@ def check_written(case, built, text, ctx: Ctx, check_preserve: bool):
                         a, b = h.ids[i], h.ids[j]
                         g = grads[k]
                         spec = g if isinstance(g, list) else [[1.0, h.counts[la], g]]
-                        length = float(np.linalg.norm(pos[b] - pos[a]))
+                        length = arcs.get(frozenset((a, b)), float(np.linalg.norm(pos[b] - pos[a])))
                         seq = multi_sizes(length, spec)
                         first_is_low = sign > 0
                         val = seq[0] if first_is_low == at_low else seq[-1]
@@ -195,6 +215,8 @@ def graded_case(draw, multi: bool):
     # one case in four: the blocks are built regular and the vertices are moved after assembly (optimiser-style)
     case["jitter_after_assembly"] = draw(st.integers(0, 3)) == 0
     case["write_before_move"] = draw(st.booleans())
+    if not case["jitter_after_assembly"]:
+        case["arcs"] = lt.draw_arcs(draw, case)
     if multi:
         # replace some chops by 2-3 section graded chops
         for ch in case["chops"]:
